@@ -138,3 +138,18 @@ def reject_specs(tier, modes=MODES):
             add('%s: valid 2-block call, then arbitrary 2-block call' % mname, cont, chunk, [call(2 if not cont else 1, 2), arb(2)], 40)
             add('%s: valid, valid, arbitrary 1-block' % mname, cont, chunk, [call(1, 2), call(1, 2), arb(1)], 40)
     return S
+
+
+def fault_specs(tier, modes=MODES):
+    from vlib import wcheck
+    S = []
+    def add(name, cont, chunk, calls, cost=1, **kw):
+        S.append(dict(name=name, n=1, d=1, sc=1, fc=1000, cont=cont, chunk=chunk, calls=calls, cost=cost, checker='fault', getters=False, **kw))
+    for mname, cont, chunk in modes:
+        for sched, fn in (('one call fails once', wcheck.fault_once), ('every call from a point on fails', wcheck.fault_persistent)):
+            if tier == 'quick' and fn is wcheck.fault_persistent and cont: continue      # quick: persistent schedule for gapped mode only
+            add('%s: 2 calls (<=2 files each) + close; %s' % (mname, sched), cont, chunk, [call(1, 2), call(1, 2)], 10, fault=fn)
+            if tier == 'thorough':
+                add('%s: 3 calls (<=2 files each) + close; %s' % (mname, sched), cont, chunk, [call(1, 2), call(1, 2), call(1, 2)], 60, fault=fn)
+                if not cont: add('%s: 2 blocks then 1 block + close; %s' % (mname, sched), cont, chunk, [call(2, 2), call(1, 2)], 60, fault=fn)
+    return S
